@@ -622,6 +622,8 @@ class TVHarness(forksym.Harness):
         ordered = j.get("ordered", "auto")
         if ordered == "auto":
             ordered = bool(b.ordered or a.ordered)
+        if getattr(a, "order_kf", False) or getattr(b, "order_kf", False):
+            ordered = False  # the sequence is covered by the known finding order_rows_null_key (no LIMIT cut): the row multiset is still decided
         f, why = rel.tables_equiv(a, b, ordered=ordered, allow_kf=True)
         info["why"] = why
         info["ordered"] = ordered
